@@ -4,7 +4,7 @@
 //! obs:  ok <n> <out> | rerr 0 <out> | werr 0 <out>
 #[path = "../sio.rs"]
 mod sio;
-use servlin::internal::{copy_chunked_async, CopyResult};
+use servlin::internal::{copy_chunked_async, AsyncWriteCounter, CopyResult};
 use sio::*;
 use svharness::*;
 
@@ -13,7 +13,16 @@ fn cc(toks: &[&str]) -> String {
     let pend: u32 = toks[4].parse().unwrap();
     let mut reader = ScriptReader::new(data, parse_rsched(toks[1]), pend & 1 != 0);
     let mut writer = ScriptWriter::new(parse_wsched(toks[2]), parse_budget(toks[3]), true, pend & 2 != 0);
-    let res = futures_lite::future::block_on(copy_chunked_async(&mut reader, &mut writer));
+    // through the byte counter HttpConn::write_response puts in front of the socket (it must be transparent: same
+    // bytes, same short writes, same Pending, and its count is what the sink accepted)
+    let (res, counted) = {
+        let mut counter = AsyncWriteCounter::new(&mut writer);
+        let res = futures_lite::future::block_on(copy_chunked_async(&mut reader, &mut counter));
+        (res, counter.num_bytes_written())
+    };
+    if counted != writer.out.len() as u64 {
+        return format!("counter-says-{counted}-sink-took-{}", writer.out.len());
+    }
     match res {
         CopyResult::Ok(n) => format!("ok {n} {}", rle(&writer.out)),
         CopyResult::ReaderErr(_) => format!("rerr 0 {}", rle(&writer.out)),
